@@ -42,7 +42,9 @@ func (n *Nonce) UnmarshalCBOR(data []byte) error {
 	n.Type = uint(nonceType) // #nosec G115
 	switch nonceType {
 	case NonceTypeNeutral:
-		// Value uses default value
+		// Value uses default value; clear whatever an earlier decode into
+		// this receiver left behind
+		n.Value = [32]byte{}
 	case NonceTypeNonce:
 		type tNonce Nonce
 		var tmp tNonce
